@@ -215,17 +215,20 @@ def dropZeros : Bool → List Byte → List Byte → Bool × List Byte × List B
   | f, l, [] => (f, l, [])
   | f, l, c :: r => if c == 48 then dropZeros true (c :: l) r else (f, l, c :: r)
 
+/-- optional sign as text: (`+`/`-` or nothing, rest) -/
+def signPrefix (r : List Byte) : List Byte × List Byte :=
+  match r with
+  | 45 :: t => ([45], t)
+  | 43 :: t => ([43], t)
+  | _ => ([], r)
+
 /-- the lexical stage of `in >> double`: the text accumulated for `strtod` (in order), new consumed side, rest -/
 def scanFloat (left right : List Byte) : List Byte × List Byte × List Byte :=
-  let (x0, l1, r1) : List Byte × List Byte × List Byte :=
-    match right with
-    | 45 :: r => ([45], 45 :: left, r)
-    | 43 :: r => ([43], 43 :: left, r)
-    | _ => ([], left, right)
-  let (fz, l2, r2) := dropZeros false l1 r1
-  let x1 := if fz then 48 :: x0 else x0
-  let (x, l3, r3) := floatLoop fz false false false x1 l2 r2
-  (x.reverse, l3, r3)
+  let sp := signPrefix right
+  let dz := dropZeros false (sp.1.reverse ++ left) sp.2
+  let x1 := if dz.1 then 48 :: sp.1.reverse else sp.1.reverse
+  let q := floatLoop dz.1 false false false x1 dz.2.1 dz.2.2
+  (q.1.reverse, q.2.1, q.2.2)
 
 /-- the lexical stage of `in >> d` on the stream: `none` = sentry refused; otherwise the text given to `strtod`.
     The caller decides `failbit` from the conversion (`IStream.setFail`). `eofbit` is set when the scan reached the end. -/
